@@ -247,7 +247,16 @@ func (h UnprotectedHeader) MarshalCBOR() ([]byte, error) {
 	if err := validateHeaderParameters(h, false); err != nil {
 		return nil, fmt.Errorf("unprotected header: %w", err)
 	}
-	return encMode.Marshal(map[any]any(h))
+	encoded, err := encMode.Marshal(map[any]any(h))
+	if err != nil {
+		return nil, err
+	}
+	// The unprotected header is decoded as part of the enclosing structure,
+	// where CBOR tags are not allowed: do not emit what cannot be decoded.
+	if err := decModeWithTagsForbidden.Wellformed(encoded); err != nil {
+		return nil, fmt.Errorf("unprotected header: %w", err)
+	}
+	return encoded, nil
 }
 
 // UnmarshalCBOR decodes a CBOR map object into UnprotectedHeader.
